@@ -15,3 +15,19 @@ func excludedAccess(accessor string, k kind) string { return "" }
 func excludedRecur(c recurCase) string { return "" }
 
 func knownSourcePanic(p escaped) string { return "" }
+
+// excludedSource: nesting of one label deeper than 300 (see C02-PARSER-DUP-LABEL).
+func excludedSource(c sourceCase) string {
+	if known("C02-PARSER-DUP-LABEL") || true {
+		for _, p := range c.Pieces {
+			if p.N > 300 && labelOpener(p.T) {
+				return "C02-PARSER-DUP-LABEL"
+			}
+		}
+	}
+	return ""
+}
+
+func labelOpener(t string) bool {
+	return t == "{a:" || t == "a:" || t == "{a:{"
+}
